@@ -126,7 +126,7 @@ class Ref:
         if k == "lit":
             x = t[1]
             if isinstance(x, bool): return v == B(x)
-            if isinstance(x, int): return v == I(x)
+            if isinstance(x, int): return v == I(x) or (x == 0 and v == NEGZ)      # -0 === 0
             return v == S(x)
         if k == "tpl":
             return v[0] == "s" and tpl_regex(t[1]).fullmatch(v[1]) is not None
